@@ -608,7 +608,7 @@ func RNilMatch(c *core.Ctx) {
 		for _, s := range sources {
 			// constructor results are never nil
 			if call, ok := s.(*ssa.Call); ok {
-				if cal := call.Call.StaticCallee(); cal != nil && (cal.Name() == "newMatch" || cal.Name() == "newMatchSparse") {
+				if cal := call.Call.StaticCallee(); cal != nil && (core.BaseName(cal) == "newMatch" || core.BaseName(cal) == "newMatchSparse") {
 					continue
 				}
 			}
